@@ -182,6 +182,7 @@ class Obj:
         self.cls = cls  # ClassInfo or str (external class name)
         self.attrs = attrs if attrs is not None else {}
         self.label = label
+        self.complete = False  # True when the repository's own constructor built it: a missing attribute is an AttributeError
 
     @property
     def cls_name(self):
@@ -647,6 +648,7 @@ class Interp:
         init = self.model.lookup_method(cls, "__init__")
         if init is not None:
             self.call_function(init, [obj] + list(args), kwargs, None)
+            obj.complete = True
         else:
             obj.attrs["args"] = tuple(args)
         return obj
@@ -676,6 +678,8 @@ class Interp:
                 if found is not None:
                     klass, expr = found
                     return self.eval(expr, Frame(None, klass.module))
+                if value.complete:
+                    self.raise_("builtins.AttributeError", name)
                 raise Undecided("attribute %s of %r not modelled" % (name, value))
             if name in value.attrs:
                 return value.attrs[name]
@@ -775,7 +779,12 @@ class Interp:
             if name == "join":
                 items = list(self.iterate(args[0]))
                 if any(not isinstance(i, str) for i in items):
-                    return Opaque("str", None, [receiver] + items if receiver else items)
+                    parts = []
+                    for position, item in enumerate(items):
+                        if position and receiver:
+                            parts.append(receiver)
+                        parts.extend(_fragments(item))
+                    return Opaque("str", None, parts)
                 return receiver.join(items)
         if name == "index" and isinstance(receiver, (list, tuple)):
             for position, item in enumerate(receiver):
@@ -999,6 +1008,10 @@ class Interp:
                         return
                 yield tuple(row)
         else:
+            hook = self.externals.get("iterate")
+            if hook is not None:
+                yield from hook(self, [value], {})
+                return
             raise Undecided("iteration over %r" % (value,))
 
     # ------------------------------------------------------------ statements
